@@ -584,6 +584,66 @@ func c09Worker(w *W) {
 		}
 		w.Res.DistinctCount = st.nontriv
 		w.Sample(map[string]any{"space": "plain ASCII strings of 43 lengths (1..300, dense around 8/16/32/64/128/256) with one of 21 special bytes / 8 multi-byte sequences at every position, plus a second special byte at +1,+7,+8,end"})
+	case "reuse":
+		// one JSONEncoder object serves a long sequence of documents (buffer reset + Reset() between them, as a caller
+		// holding on to its encoder would do): every document must be byte-identical to what a fresh encoder produces for it
+		r := w.Rng()
+		keys := []string{"msg", "k", "user_id", "he said \"hi\"", "back\\slash", "line\nbreak", "x\xffy", "trace", "é", "", "a b", "ctl\x01"}
+		vals := func() string {
+			switch r.IntN(4) {
+			case 0:
+				return ""
+			case 1:
+				return strings.Repeat("v", r.IntN(200))
+			case 2:
+				return "q\"" + strings.Repeat("\\", r.IntN(5)) + "\n"
+			}
+			return fmt.Sprint(r.IntN(1 << 30))
+		}
+		var buf bytes.Buffer
+		enc := log.NewJSONEncoder(&buf)
+		for doc := 0; doc < int(w.Spec.N); doc++ {
+			n := 1 + r.IntN(6)
+			type kv struct{ k, v string }
+			var kvs []kv
+			for i := 0; i < n; i++ {
+				kvs = append(kvs, kv{keys[r.IntN(len(keys))], vals()})
+			}
+			write := func(e *log.JSONEncoder) {
+				e.AppendEncoderBegin()
+				for i, x := range kvs {
+					e.AppendKey(x.k)
+					switch i % 3 {
+					case 0:
+						e.AppendString(x.v)
+					case 1:
+						e.AppendInt64(int64(len(x.v)))
+					default:
+						e.AppendArrayBegin()
+						e.AppendString(x.v)
+						e.AppendBool(true)
+						e.AppendArrayEnd()
+					}
+				}
+				e.AppendEncoderEnd()
+			}
+			buf.Reset()
+			enc.Reset()
+			if pv, _ := catch(func() { write(enc) }); pv != nil {
+				report(fmt.Sprint(kvs), fmt.Sprintf("reused encoder panicked: %v", pv), "layout")
+				break
+			}
+			var fb bytes.Buffer
+			write(log.NewJSONEncoder(&fb))
+			if !bytes.Equal(buf.Bytes(), fb.Bytes()) {
+				report(fmt.Sprint(kvs), fmt.Sprintf("key/value document %d written by a REUSED JSONEncoder (Reset between documents) differs from a fresh encoder's: %q vs %q", doc, trunc(buf.String(), 300), trunc(fb.String(), 300)), "layout")
+				break
+			}
+			st.evals++
+		}
+		w.Count("documents_through_one_reused_encoder", int64(w.Spec.N))
+		w.Distinct("reuse")
+		w.Sample(map[string]any{"kind": "reuse", "what": "one JSONEncoder + one buffer, Reset between documents of 1-6 members drawn from 12 keys (some needing escapes) in varying order"})
 	case "layoutexh":
 		// every string of length <= 2 as key and value through both encoders
 		for a := 0; a < 256; a++ {
@@ -711,6 +771,9 @@ func init() {
 			for i := 0; i < 4; i++ {
 				specs = append(specs, d.NewSpec("inject", fmt.Sprintf("inj-%d", i), i, 4))
 			}
+			ru := d.NewSpec("reuse", "reuse", 0, 1)
+			ru.N = d.Pick(20000, 400000)
+			specs = append(specs, ru)
 			ar := d.NewSpec("addrreuse", "addrreuse", 0, 1)
 			ar.N = d.Pick(3000, 60000)
 			specs = append(specs, ar)
